@@ -13,7 +13,9 @@ Anchors (under `/repo/source/gatery`):
 A process is a finite list of instructions; its coroutine handle is its index in `procs` (= process id).
 Signals a process can read or watch: register outputs (live state) and input-pin *outputs* (`Node_Pin` copies its internal state to
 its output in `simulateEvaluate`, so the output is the pin value as of the last `reevaluate`).
-`co_await` on a forked process (join), `WaitUntil` (unimplemented in gatery) and `abort()` are not modelled.
+`join(handle)` of a forked process is modelled with the coroutine handler's ready queue (`SimulationProcess.h:341-372`,
+`SimulationProcess.cpp:42-58`: `FinalSuspendAwaiter::await_suspend` appends the joiners in the order they started waiting, `run()`
+drains the queue front to back); `WaitUntil` (unimplemented in gatery) and `abort()` are not modelled.
 -/
 namespace Gatery.Sched
 
@@ -31,6 +33,7 @@ inductive Instr
   | read (sigs : List Sig)                       -- observe: logs (pid, time, phase, micro tick, values)
   | write (pin : Nat) (v : Val)                  -- `simProcSetInputPin`
   | fork (script : Nat)                          -- `forkFunc` of script number `script`
+  | join (k : Nat)                               -- `co_await join(h)`, `h` = handle returned by the `k`-th `fork` so far (none yet: no-op)
   deriving Repr, DecidableEq, Inhabited
 
 /-- `SignalWatch` -/
@@ -47,6 +50,10 @@ structure PExt where
   procs : List (List Instr) := []        -- remaining instructions of every started process, by handle
   watches : List Watch := []             -- `m_signalWatches`
   awaitingCommit : List Nat := []        -- `m_processesAwaitingCommit`
+  forked : List Nat := []                -- handles returned by `fork`, in call order (what `join k` refers to)
+  finished : List Nat := []              -- processes that reached their final suspend
+  joiners : List (Nat × Nat) := []       -- (joined process, waiting process) in the order the waits began: `awaitingFinalSuspend`
+  ready : List Nat := []                 -- `SimulationCoroutineHandler::m_coroutinesReadyToResume`
   deriving Repr, Inhabited
 
 abbrev PSim := Sim PExt
@@ -86,12 +93,19 @@ def Instr.isWait : Instr → Bool
   | .waitFor _ | .waitClk .. | .waitClkFree .. | .waitChange _ | .waitStable => true
   | _ => false
 
+/-- `FinalSuspendAwaiter::await_suspend`: everything waiting for `h` becomes ready, in the order it started waiting -/
+def finishProc (s : PSim) (h : Nat) : PSim :=
+  if s.ext.finished.contains h then s else
+  { s with ext := { s.ext with finished := s.ext.finished ++ [h],
+                               ready := s.ext.ready ++ (s.ext.joiners.filter (·.1 == h)).map (·.2),
+                               joiners := s.ext.joiners.filter (·.1 != h) } }
+
 /-- resume process `h` and run it up to its next suspension (or its end); forked children run immediately, nested -/
 def runProc : Nat → PSim → Nat → PSim
   | 0, s, _ => s.fail "fuel:runProc"
   | fuel+1, s, h =>
     match s.ext.procs.getD h [] with
-    | [] => s
+    | [] => finishProc s h
     | ins :: rest =>
       let s := setProc s h rest
       match ins with
@@ -99,11 +113,28 @@ def runProc : Nat → PSim → Nat → PSim
       | .write k v => runProc fuel (setPin s k v) h
       | .fork c =>
         let h' := s.ext.procs.length
-        let s := { s with ext := { s.ext with procs := s.ext.procs ++ [s.ext.scripts.getD c []] } }
+        let s := { s with ext := { s.ext with procs := s.ext.procs ++ [s.ext.scripts.getD c []], forked := s.ext.forked ++ [h'] } }
         runProc fuel (runProc fuel s h') h
+      | .join k =>
+        match s.ext.forked[k]? with
+        | none => runProc fuel s h
+        | some t =>
+          if s.ext.finished.contains t then runProc fuel s h          -- `Join::await_ready`: already done
+          else { s with ext := { s.ext with joiners := s.ext.joiners ++ [(t, h)] } }
       | w => suspend s h w
 
 def procFuel : Nat := 10000
+
+/-- `SimulationCoroutineHandler::run()`: resume what is ready, front to back, until nothing is -/
+def drain : Nat → PSim → PSim
+  | 0, s => s.fail "fuel:drain"
+  | fuel+1, s =>
+    match s.ext.ready with
+    | [] => s
+    | r :: rest => drain fuel (runProc procFuel { s with ext := { s.ext with ready := rest } } r)
+
+/-- `readyToResume(h); run()` -/
+def resumeTop (s : PSim) (h : Nat) : PSim := drain procFuel (runProc procFuel s h)
 
 /-- `checkSignalWatches()` (907-931) -/
 def checkWatches (s : PSim) : PSim :=
@@ -118,18 +149,18 @@ def checkWatches (s : PSim) : PSim :=
 def commitProcs (s : PSim) : PSim :=
   let hs := s.ext.awaitingCommit
   let s := { s with ext := { s.ext with awaitingCommit := [] } }
-  hs.foldl (fun s h => runProc procFuel s h) s
+  hs.foldl (fun s h => resumeTop s h) s
 
 /-- power-on: start the first `n` scripts as processes, in order (719-729) -/
 def startProcs (n : Nat) (s : PSim) : PSim :=
   (List.range n).foldl (fun s k =>
     let h := s.ext.procs.length
     let s := { s with ext := { s.ext with procs := s.ext.procs ++ [s.ext.scripts.getD k []] } }
-    runProc procFuel s h) s
+    resumeTop s h) s
 
 /-- the process semantics plugged into the event loop; `nStart` = number of processes started at power-on -/
 def scriptSem (nStart : Nat) : ProcSem PExt :=
-  { resume := fun _ s h => runProc procFuel s h,
+  { resume := fun _ s h => resumeTop s h,
     checkWatches := fun _ s => checkWatches s,
     commit := fun _ s => commitProcs s,
     start := fun _ s => startProcs nStart s }
